@@ -33,6 +33,7 @@ func TestVerif_C12(t *testing.T) {
 	out := vOpenOut()
 	defer out.Close()
 	n := vEnvInt("VERIF_N", 20)
+	retries := 0
 	for ci := 0; ci < n; ci++ {
 		r := vNewRand(uint64(1200000 + ci))
 		var mu sync.Mutex
@@ -50,7 +51,25 @@ func TestVerif_C12(t *testing.T) {
 			tw.Add(base.Add(time.Duration(off)*time.Millisecond), i)
 			ents = append(ents, fmt.Sprintf("(%s, %s)", cN(i), cN(off)))
 		}
-		time.Sleep(30*time.Millisecond + 5*4*time.Millisecond + 15*time.Millisecond)
+		if !time.Now().Before(base.Add(-5*time.Millisecond)) && retries < 20 {
+			// the machine was too slow: the entries were not all added ahead of their time, the case
+			// says nothing about the order of scheduled entries; again
+			tw.Close()
+			retries++
+			ci--
+			continue
+		}
+		// until everything was dispatched (bounded), not for a fixed time
+		dl := time.Now().Add(5 * time.Second)
+		for time.Now().Before(dl) {
+			mu.Lock()
+			done := len(order) >= k
+			mu.Unlock()
+			if done && time.Now().After(base.Add(20*time.Millisecond)) {
+				break
+			}
+			time.Sleep(time.Millisecond)
+		}
 		tw.Close()
 		mu.Lock()
 		out.Case(fmt.Sprintf("CSeq %s %s", cList(ents), cList(order)))
